@@ -2005,3 +2005,10 @@ B("r22-zone-minutes-floor-raised", ["C06"], ["R22"],
 K("r22-zone-minutes-floor-respelled",
   ("data", "            min_minutes = 1 - CALENDAR.MINUTES_IN_HOUR",
    "            min_minutes = -(CALENDAR.MINUTES_IN_HOUR - 1)"))
+B("r19-get-next-for-single-point", ["C13"], ["R19"],
+  ("data", "        if self._repetitions == 1 or timepoint is None:\n"
+           "            return None\n"
+           "        next_timepoint = timepoint + self._duration",
+   "        if timepoint is None:\n"
+   "            return None\n"
+   "        next_timepoint = timepoint + self._duration"))
